@@ -373,7 +373,7 @@ func FormatDataType(dt *ast.DataType) string {
 				}
 			} else if fn.Name == "SKIP REGEXP" && len(fn.Arguments) > 0 {
 				if lit, ok := fn.Arguments[0].(*ast.Literal); ok {
-					params = append(params, fmt.Sprintf("SKIP REGEXP \\\\\\'%s\\\\\\'", lit.Value))
+					params = append(params, fmt.Sprintf("SKIP REGEXP \\\\\\'%s\\\\\\'", escapeStringForTypeParam(fmt.Sprint(lit.Value))))
 				}
 			} else {
 				// General function call (e.g., sumMapFiltered([1, 2]) in AggregateFunction)
